@@ -2,8 +2,10 @@ package harness
 
 import (
 	"fmt"
+	"strings"
 	"testing"
 
+	segment "github.com/blugelabs/bluge_segment_api"
 	"pgregory.net/rapid"
 )
 
@@ -202,4 +204,59 @@ func TestC07Gaps(t *testing.T) {
 	st := NewStats("C07Gaps", c07Rule)
 	defer st.Flush()
 	rapid.Check(t, c07Prop(st, FamDVGaps))
+}
+
+// One doc-value chunk (the terms of up to 1024 documents of one field) of more
+// than 64 MiB: beyond any plausible decoder or buffer limit. A plain test.
+func TestC07HugeChunk(t *testing.T) {
+	st := NewStats("C07HugeChunk", c07Rule)
+	defer st.Flush()
+	const nDocs, perDoc, termLen = 72, 1000, 1000
+	pad := strings.Repeat("v", termLen-12)
+	b := make(Batch, nDocs)
+	for d := range b {
+		f := Field{Name: "big", DV: true, Len: perDoc, Terms: make([]Term, perDoc)}
+		for k := range f.Terms {
+			f.Terms[k] = Term{T: fmt.Sprintf("%04d-%06d-%s", d, k, pad), Freq: 1}
+		}
+		b[d].Fields = []Field{f, {Name: "small", DV: true, Len: 1, Terms: []Term{{T: fmt.Sprintf("s%d", d%3), Freq: 1}}}}
+	}
+	seg, err := Build(b, normFns[0], 1025)
+	if err != nil {
+		t.Fatal(err)
+	}
+	exp := &XSeg{N: nDocs, DV: map[string][][]string{"big": make([][]string, nDocs), "small": make([][]string, nDocs)}}
+	for d := range b {
+		for _, tm := range b[d].Fields[0].Terms {
+			exp.DV["big"][d] = append(exp.DV["big"][d], tm.T)
+		}
+		exp.DV["small"][d] = []string{b[d].Fields[1].Terms[0].T}
+	}
+	check := func(s segment.Segment, what string) {
+		r, err := s.DocumentValueReader([]string{"small", "big"})
+		if err != nil {
+			t.Fatal(err)
+		}
+		for _, d := range []uint64{0, 71, 35} {
+			if err := checkDVVisit(r, exp, []string{"small", "big"}, d); err != nil {
+				msg := err.Error()
+				if len(msg) > 600 {
+					msg = msg[:600] + "..."
+				}
+				t.Fatalf("%s segment with a %d MB doc-value chunk: %s", what, nDocs*perDoc*termLen>>20, msg)
+			}
+		}
+	}
+	check(seg, "built")
+	bs, err := Persist(seg)
+	if err != nil {
+		t.Fatal(err)
+	}
+	seg = nil
+	loaded, err := LoadMem(bs)
+	if err != nil {
+		t.Fatal(err)
+	}
+	check(loaded, "loaded")
+	st.Record("72 documents x 1000 terms x 1000 bytes in one doc-value field", true, "doc-value-chunk>64MiB")
 }
